@@ -184,6 +184,44 @@ static srtp_err_status_t w_set_iv(void *cv, uint8_t *iv, srtp_cipher_direction_t
     return orig128->set_iv(cv, iv, d);
 }
 
+#ifdef GCM
+/* the same for the AES-GCM cipher types (GCM-capable configurations): a repeated (key, IV) pair is fatal for GCM */
+static srtp_cipher_type_t wrapg128, wrapg256;
+static const srtp_cipher_type_t *origg128, *origg256;
+static srtp_err_status_t g_alloc(srtp_cipher_t **c, size_t key_len, size_t tlen)
+{
+    srtp_err_status_t s = origg128->alloc(c, key_len, tlen);
+    if (s == srtp_err_status_ok) (*c)->type = ((*c)->type == origg256) ? &wrapg256 : &wrapg128;
+    return s;
+}
+static srtp_err_status_t g_dealloc(srtp_cipher_t *c)
+{
+    for (int i = 0; i < nctx; i++)
+        if (ctxfp[i].cv == c->state) { ctxfp[i] = ctxfp[--nctx]; break; }
+    return origg128->dealloc(c);
+}
+static srtp_err_status_t g_init(void *cv, const uint8_t *key)
+{
+    int i;
+    for (i = 0; i < nctx; i++)
+        if (ctxfp[i].cv == cv) break;
+    if (i == nctx && nctx < MAXCTX) nctx++;
+    if (i < MAXCTX) { ctxfp[i].cv = cv; memcpy(ctxfp[i].fp, key, 4); }
+    return origg128->init(cv, key);
+}
+static srtp_err_status_t g_set_iv(void *cv, uint8_t *iv, srtp_cipher_direction_t d)
+{
+    if (ivlog_on && d == srtp_direction_encrypt && nivlog < MAXIV) {
+        memset(ivlog[nivlog], 0, 20);
+        for (int i = 0; i < nctx; i++)
+            if (ctxfp[i].cv == cv) memcpy(ivlog[nivlog], ctxfp[i].fp, 4);
+        memcpy(ivlog[nivlog] + 4, iv, 12);       /* a GCM IV has 12 octets */
+        nivlog++;
+    }
+    return origg128->set_iv(cv, iv, d);
+}
+#endif
+
 /* ------------------------------------------------------------------------- */
 /* events                                                                     */
 
@@ -688,6 +726,14 @@ void api_init(void)
     wrap192 = srtp_aes_icm_192;
     wrap192.alloc = w_alloc; wrap192.dealloc = w_dealloc; wrap192.init = w_init; wrap192.set_iv = w_set_iv;
     if (!st) st = srtp_replace_cipher_type(&wrap192, SRTP_AES_ICM_192);
+#endif
+#ifdef GCM
+    origg128 = &srtp_aes_gcm_128; origg256 = &srtp_aes_gcm_256;
+    wrapg128 = srtp_aes_gcm_128; wrapg256 = srtp_aes_gcm_256;
+    wrapg128.alloc = wrapg256.alloc = g_alloc; wrapg128.dealloc = wrapg256.dealloc = g_dealloc;
+    wrapg128.init = wrapg256.init = g_init; wrapg128.set_iv = wrapg256.set_iv = g_set_iv;
+    if (!st) st = srtp_replace_cipher_type(&wrapg128, SRTP_AES_GCM_128);
+    if (!st) st = srtp_replace_cipher_type(&wrapg256, SRTP_AES_GCM_256);
 #endif
     if (st) { fprintf(stderr, "replace_cipher_type failed %d\n", st); exit(3); }
     tracking = 1;
